@@ -24,7 +24,10 @@ def main():
     ids = [a for a in sys.argv[1:] if not a.startswith('-')]
     dirs = [d for d in sorted(glob.glob('/verif/refactored/*')) if not ids or os.path.basename(d) in ids or any(os.path.basename(d).startswith(a + '-') for a in ids)]
     temps = {os.path.basename(d): prep(d) for d in dirs}
-    jobs = [(i, t, p) for i, t in temps.items() for p in PROPS]
+    def touches(i, path):
+        return path in open('/verif/refactored/%s/patch.diff' % i).read()
+    # C16 reads xtuml/meta.py only: a patch that does not touch it cannot change its verdict
+    jobs = [(i, t, p) for i, t in temps.items() for p in PROPS if p != 'C16' or touches(i, 'xtuml/meta.py')]
     res = {}
     try:
         with concurrent.futures.ThreadPoolExecutor(max_workers=16) as ex:
